@@ -43,7 +43,8 @@ func nastyGraph() *world.Graph {
 		n.F["name"] = nasty[(i+1)%len(nasty)]
 		n.F["strs"] = []interface{}{nasty[(i+2)%len(nasty)], nasty[(i+3)%len(nasty)]}
 		// numbers a JSON writer must not print as is if they leak: beyond float32, and the largest finite float64
-		n.F["f"] = []float64{1e39, -1e39, 1.7976931348623157e308, 0.5, 2.5e-45, 3.4e38}[i%6]
+		// and whole floats beyond the int64 range that a Float can hold (1e19, 6.02e23, 3.4e38): a writer must not narrow them
+		n.F["f"] = []float64{1e19, -1e39, 1.7976931348623157e308, -6.02e23, 2.5e-45, 3.4e38, 0.5, 1e39}[i%8]
 	}
 	return g
 }
@@ -480,7 +481,8 @@ func runC07(c *core.Ctx) {
 	}
 	docs := world.BaseDocs()
 	// numeric leaves at root, nested and list-element positions (the nasty graph holds floats beyond float32)
-	docs = append(docs, world.Q(world.F("f"), world.F("a", world.F("f"), world.F("i")), world.F("kids", world.F("f")), world.F("ints")))
+	docs = append(docs, world.Q(world.F("f"), world.F("a", world.F("f"), world.F("i")), world.F("kids", world.F("f")), world.F("ints"),
+		world.F("b", world.F("f"), world.F("peer", world.F("f"))), world.F("c", world.F("f")), world.F("peers", world.F("f"))))
 	nBases := len(docs)
 	if c.Thorough() {
 		docsWithin(c, s, world.BaseDocs(), 1, 0, func(d *world.Doc, dist int) bool {
